@@ -155,6 +155,20 @@ pub fn c14rows(args: &[String]) {
                 }
             }
         }
+        // the same parser on sources of EXACTLY 1..4 bytes: where the header ends with the input (a count of zero in the two
+        // byte form needs no modes byte; everything else needs all of its bytes)
+        for b0 in 0..=255u32 {
+            for (b1, b2, b3) in [(0u32, 0u32, 0u32), (1, 0, 0), (0, 5, 9), (255, 255, 255)] {
+                for len in 1..=4usize {
+                    let src: Vec<u8> = [b0 as u8, b1 as u8, b2 as u8, b3 as u8][..len].to_vec();
+                    let r = match verif::parse_sequences_header(&src) {
+                        Ok((p, _, u)) => json!({"k": "seqhdr", "src": src, "ok": true, "n": p, "used": u}),
+                        Err(_) => json!({"k": "seqhdr", "src": src, "ok": false, "n": 0, "used": 0}),
+                    };
+                    row!(w, "seqhdr", r);
+                }
+            }
+        }
         w.flush().unwrap();
     }
     // ---- literals section headers: every (type, size format) x boundary sizes through the parser; writers ----
